@@ -19,9 +19,18 @@
      (14 heap L key (val ...) excl)    filter_keyvals (excl = 0/1)
      (15 heap L (key ...))             merge_events_by_keys
      (16 heap L key pulse sub_key)     chunk_events_by_key (pulse in us)
-     (17 heap L)                       sum_durations          -> (0 sum) | (1 errcode) *)
+     (17 heap L)                       sum_durations          -> (0 sum) | (1 errcode)
+
+   C19 (Model/ClassifyHeap.v).  Scalar labels in data dicts: 2*s = the string s, 2*l+1 = any
+   other immutable value l; a list of strings is the cell (2 ((s 1 0) ...) ()).  Engine
+   tables and rulespec as in Extract/ExC19.v (values there: (0 s) | (1 l) | (2 (s ...))).
+     (20 heap L retab ((catloc rulespec) ...))   categorize; catloc = location of the category list
+     (21 heap L retab ((tag rulespec) ...))      tag; tag = string label
+     (22 heap L urltab wwwtab)                   split_url_events
+     (23 heap L subtab key)                      simplify_string
+   20..22 mutate in place: (0 (heap' L')) | (1 errcode heap') [the heap reached when it raised] | (2) *)
 From AwVerif Require Import Base.Prelude Base.Sexp Model.MemHeap Model.Timeslot Model.TransformHeap
-  Model.DictHeap Model.GroupHeap.
+  Model.DictHeap Model.GroupHeap Model.ClassifyBase Model.Classify Model.ClassifyHeap.
 From Coq Require Import Arith.
 Require Extraction.
 Require Import ExtrOcamlBasic.
@@ -75,6 +84,145 @@ Definition heap_s (h : heap) : sexp := L (map cell_s h).
 
 Definition out_s (r : res (heap * loc)) : sexp :=
   res_s (fun hl => L [heap_s (fst hl); loc_s (snd hl)]) r.
+
+
+(* ---- C19: wire decoders of the engine tables, as in Extract/ExC19.v ---- *)
+Definition sValue (s : sexp) : option value :=
+  match s with
+  | L [A 0; A x] => Some (VStr x)
+  | L [A 1; A x] => Some (VOther x)
+  | L [A 2; l] => match sZs l with Some l => Some (VList l) | None => None end
+  | _ => None
+  end.
+Definition value_s (v : value) : sexp :=
+  match v with
+  | VStr x => L [A 0; A x]
+  | VOther x => L [A 1; A x]
+  | VList l => L [A 2; L (map A l)]
+  end.
+
+Definition sSpec (s : sexp) : option rulespec :=
+  match s with
+  | L [rx; sel; ic] =>
+      match sOptZ rx, sBool ic with
+      | Some rx, Some ic =>
+          match sel with
+          | L [] => Some (mkSpec rx None ic)
+          | L [ks] => match sZs ks with Some ks => Some (mkSpec rx (Some ks) ic) | None => None end
+          | _ => None
+          end
+      | _, _ => None
+      end
+  | _ => None
+  end.
+
+(* ---- tables ---- *)
+Definition value_eqb (a b : value) : bool :=
+  match a, b with
+  | VStr x, VStr y => x =? y
+  | VOther x, VOther y => x =? y
+  | VList x, VList y => (Z.of_nat (length x) =? Z.of_nat (length y)) && forallb (fun p => fst p =? snd p) (combine x y)
+  | _, _ => false
+  end.
+
+Definition rerow := (Z * bool * Z * bool)%type.
+Definition sReRow (s : sexp) : option rerow :=
+  match s with
+  | L [A p; ic; A x; b] =>
+      match sBool ic, sBool b with Some ic, Some b => Some (p, ic, x, b) | _, _ => None end
+  | _ => None
+  end.
+Fixpoint re_lookup (t : list rerow) (p : Z) (ic : bool) (x : Z) : option bool :=
+  match t with
+  | [] => None
+  | (p', ic', x', b) :: r =>
+      if (p' =? p) && Bool.eqb ic' ic && (x' =? x) then Some b else re_lookup r p ic x
+  end.
+Definition re_of (t : list rerow) (p : Z) (ic : bool) (x : Z) : bool :=
+  match re_lookup t p ic x with Some b => b | None => false end.
+
+Definition sParts (s : sexp) : option urlparts :=
+  match s with
+  | L [a; b; c; d; e; f] =>
+      match sValue a, sValue b, sValue c, sValue d, sValue e, sValue f with
+      | Some a, Some b, Some c, Some d, Some e, Some f => Some (mkUrl a b c d e f)
+      | _, _, _, _, _, _ => None
+      end
+  | _ => None
+  end.
+Definition err_of_code (c : Z) : errclass :=
+  match c with
+  | 4 => KeyError | 5 => ValueError | 6 => IndexError | 7 => AttributeError | 8 => TypeError
+  | _ => OtherError
+  end.
+Definition sUrlRow (s : sexp) : option (value * res urlparts) :=
+  match s with
+  | L [v; L [A 0; p]] =>
+      match sValue v, sParts p with Some v, Some p => Some (v, Ok p) | _, _ => None end
+  | L [v; L [A 1; A c]] =>
+      match sValue v with Some v => Some (v, Err (err_of_code c)) | None => None end
+  | _ => None
+  end.
+Fixpoint url_lookup (t : list (value * res urlparts)) (v : value) : option (res urlparts) :=
+  match t with
+  | [] => None
+  | (v', r) :: rest => if value_eqb v' v then Some r else url_lookup rest v
+  end.
+Definition url_of (t : list (value * res urlparts)) (v : value) : res urlparts :=
+  match url_lookup t v with Some r => r | None => Err OtherError end.
+
+Definition sWwwRow (s : sexp) : option (value * bool * value) :=
+  match s with
+  | L [v; b; w] =>
+      match sValue v, sBool b, sValue w with
+      | Some v, Some b, Some w => Some (v, b, w)
+      | _, _, _ => None
+      end
+  | _ => None
+  end.
+Fixpoint www_lookup (t : list (value * bool * value)) (v : value) : option (bool * value) :=
+  match t with
+  | [] => None
+  | (v', b, w) :: rest => if value_eqb v' v then Some (b, w) else www_lookup rest v
+  end.
+Definition www_of t v : bool := match www_lookup t v with Some (b, _) => b | None => false end.
+Definition drop4_of t v : value := match www_lookup t v with Some (_, w) => w | None => VOther (-1) end.
+Definition sSubRow (s : sexp) : option (Z * (Z * Z * Z)) :=
+  match s with
+  | L [A x; A p; A f; A d] => Some (x, (p, f, d))
+  | _ => None
+  end.
+Fixpoint sub_lookup (t : list (Z * (Z * Z * Z))) (x : Z) : option (Z * Z * Z) :=
+  match t with
+  | [] => None
+  | (x', r) :: rest => if x' =? x then Some r else sub_lookup rest x
+  end.
+Definition sub1 t x := match sub_lookup t x with Some (p, _, _) => p | None => -1 end.
+Definition sub2 t x := match sub_lookup t x with Some (_, f, _) => f | None => -1 end.
+Definition sub3 t x := match sub_lookup t x with Some (_, _, d) => d | None => -1 end.
+
+Definition init_classes {C} (l : list (C * rulespec)) : list (C * rule) :=
+  map (fun cr => (fst cr, rule_init (snd cr))) l.
+
+
+Definition sCatLocClass (s : sexp) : option (loc * rulespec) :=
+  match s with
+  | L [A c; r] => match sSpec r with Some r => Some (nat_of c, r) | None => None end
+  | _ => None
+  end.
+Definition sTagClass (s : sexp) : option (Z * rulespec) :=
+  match s with
+  | L [A t; r] => match sSpec r with Some r => Some (t, r) | None => None end
+  | _ => None
+  end.
+
+(* in-place transforms: the heap reached travels with the outcome *)
+Definition outh_s (r : heap * res loc) : sexp :=
+  match snd r with
+  | Ok l => L [A 0; L [heap_s (fst r); loc_s l]]
+  | Err c => L [A 1; A (errclass_code c); heap_s (fst r)]
+  | OutOfFuel => L [A 2]
+  end.
 
 Definition driver_entry (s : sexp) : sexp :=
   match s with
@@ -137,6 +285,29 @@ Definition driver_entry (s : sexp) : sexp :=
       match sHeap hp with
       | Some h => res_s (fun z => A z) (sum_durations_h h (nat_of l))
       | None => bad_case
+      end
+  | L [A 20; hp; A l; rt; cls] =>
+      match sHeap hp, sList sReRow rt, sList sCatLocClass cls with
+      | Some h, Some rt, Some cls =>
+          outh_s (categorize_h (re_of rt) h (nat_of l) (init_classes cls))
+      | _, _, _ => bad_case
+      end
+  | L [A 21; hp; A l; rt; cls] =>
+      match sHeap hp, sList sReRow rt, sList sTagClass cls with
+      | Some h, Some rt, Some cls =>
+          outh_s (tag_h (re_of rt) h (nat_of l) (init_classes cls))
+      | _, _, _ => bad_case
+      end
+  | L [A 22; hp; A l; ut; wt] =>
+      match sHeap hp, sList sUrlRow ut, sList sWwwRow wt with
+      | Some h, Some ut, Some wt =>
+          outh_s (split_url_events_h (url_of ut) (www_of wt) (drop4_of wt) h (nat_of l))
+      | _, _, _ => bad_case
+      end
+  | L [A 23; hp; A l; st; A key] =>
+      match sHeap hp, sList sSubRow st with
+      | Some h, Some st => out_s (simplify_string_h (sub1 st) (sub2 st) (sub3 st) h (nat_of l) key)
+      | _, _ => bad_case
       end
   | _ => bad_case
   end.
